@@ -35,7 +35,48 @@ pub fn check_one<L: Tab>(n: usize, init: &str) -> Result<u64, (String, String)> 
     }
 }
 
+/// One tour: every constructor at every ordered pair of sizes consecutively.
+pub fn tour(which: &str, k: usize, _thorough: bool) -> Result<super::xsize::Tour, String> {
+    if which != "sizes" {
+        return Err("no such tour".into());
+    }
+    let sizes: Vec<usize> = (0..=12).collect();
+    let a0 = *sizes.get(k).ok_or("no such tour")?;
+    let mut t = super::xsize::Tour::new(format!("sizes:{}", k));
+    for s in super::xsize::size_pairs_from(a0, &sizes) {
+        let mut list: Vec<String> = vec!["zero".into(), "one".into(), "parity".into(), "majority".into(), "default".into()];
+        for kk in [0usize, 1, s / 2, s, s + 1, usize::MAX] {
+            list.push(format!("thr:{}", kk));
+            list.push(format!("eq:{}", kk));
+        }
+        for c in [0usize, 1, 0b101, (1usize << (s + 1)) - 1, (1usize << s) | 1, usize::MAX, 0x5555_5555_5555_5555] {
+            list.push(format!("sym:{}", c));
+        }
+        if s > 0 {
+            list.push("var:0".into());
+            list.push(format!("var:{}", s - 1));
+        }
+        list.sort();
+        list.dedup();
+        for init in list {
+            for st in [false, true] {
+                let i2 = init.clone();
+                t.push(format!("{} {} n={}", if st { "LutN" } else { "Lut" }, i2, s), move || {
+                    fn go<L: Tab>(n: usize, init: &str) -> Verdict {
+                        check_one::<L>(n, init).map(|_| ())
+                    }
+                    for_type!(st, s, go(s, &i2))
+                });
+            }
+        }
+    }
+    Ok(t)
+}
+
 pub fn replay(case: &Case) -> Result<Verdict, String> {
+    if case.opt("kind") == Some("tour") {
+        return super::xsize::replay(case, &tour);
+    }
     let st = parse_ty(case.get("ty")?)?;
     let n = case.usize("n")?;
     let init = case.get("init")?.to_string();
@@ -127,6 +168,7 @@ pub fn explore_all(run: &Run) {
             for_static!(n, ex(run, true, n));
         }
     }
+    super::xsize::run_tours(run, "C11", "sizes (every named constructor per size, every ordered pair of sizes 0..=12 consecutively)", "constants, parity, majority, default, threshold/equals with k in {0,1,n/2,n,n+1,usize::MAX}, 7 count masks, first and last projection; both types; results must not depend on what was built before on the thread", 13, &|k| tour("sizes", k, false).unwrap());
 }
 
 /// Beyond the sizes of the stated quantifier: a few constructor calls on large dynamic tables
